@@ -9,6 +9,7 @@ SPEC = dict(
         "SymVerif.C04.addE_comm", "SymVerif.C04.addE_assoc", "SymVerif.C04.addN_perm",
         "SymVerif.C04.addN_eq_foldl_addE", "SymVerif.C04.addTree_eq_addN", "SymVerif.C04.addTree_perm",
         "SymVerif.C04.addE_closed", "SymVerif.C04.addN_closed", "SymVerif.C04.addOperandOK_iff",
+        "SymVerif.C04.addOperandOK_of_inv", "SymVerif.C04.addTree_perm_inv",
         # Mul: numeric-exponent fragment
         "SymVerif.C04.mulEO_comm", "SymVerif.C04.mulEO_assoc", "SymVerif.C04.mulNO_perm",
         "SymVerif.C04.mulTree_eq_mulNO", "SymVerif.C04.mulTree_perm", "SymVerif.C04.mulEO_closed",
@@ -18,7 +19,7 @@ SPEC = dict(
         "SymVerif.C04.mulTree_eq_mulNO_sym", "SymVerif.C04.mulTree_perm_sym", "SymVerif.C04.mulEO_closed_sym",
         "SymVerif.C04.mulOperandOKS_iff",
         # max / min, and / or
-        "SymVerif.C04.maxMinE_perm", "SymVerif.C04.maxMinTree_eq", "SymVerif.C04.maxMinTree_perm", "SymVerif.C04.andOr_perm", "SymVerif.C04.C04_full_false",
+        "SymVerif.C04.maxMinE_perm", "SymVerif.C04.maxMinTree_eq", "SymVerif.C04.maxMinTree_perm", "SymVerif.C04.andOr_perm", "SymVerif.C04.andOr_flatten", "SymVerif.C04.andOr_flatten2", "SymVerif.C04.C04_full_false",
         # the unrestricted statement is false (model level; the same inputs fail on the real library)
         "SymVerif.C04.witness_add_sum_as_term", "SymVerif.C04.witness_mul_rad_negbase",
         "SymVerif.C04.witness_mul_rad_perfectpower", "SymVerif.C04.witness_mul_rad_gaussian",
@@ -41,7 +42,7 @@ SPEC = dict(
         "of integers b >= 2 that are not perfect powers, zero factors) are covered by the exhaustive "
         "permutation x bracketing oracle only",
         "the Mul theorems carry the fuel bound `total number of dictionary entries + 6 <= defaultFuel (100000)`",
-        "and/or: permutation invariance of and_or (andOr_perm) only; invariance under grouping is checked by the oracle",
+        "and/or: andOr_perm and andOr_flatten are statements about the C28 model of and_or (no FiniteSet-domain rule); this slice has no correspondence for and/or (oracle only)",
         "max/min: operands are exact real numbers, non-Max(Min) expressions and canonical Max(Min) nodes",
     ],
     level_note="proof on the model for sums of the whole safe class and for products of opaque bases with numeric "
